@@ -35,7 +35,7 @@ demonstration passes on the unchanged tree and fails with the change (re-verifie
 them is ever committed to /repo.  `seedtest.py seeded/<id>` applies the patch, runs the property's check and undoes it
 (`--scratch`: against a throw-away copy of /repo).
 
-Five rounds of 20 (one per property each), a sixth and a seventh of 10.  Round 2 was asked to avoid the most central function of each mechanism and
+Five rounds of 20 (one per property each), a sixth of 10 and a seventh of 15.  Round 2 was asked to avoid the most central function of each mechanism and
 to look at fallbacks, tear-down, the less common poll methods, reuse and module interactions; round 3 was asked for
 unusual-but-valid API sequences, kernel-return-dependent behaviour, interactions between modules and histories of three
 or more steps; round 4 for changes in shared infrastructure (headers, helpers), exact boundary values (wrapping
@@ -43,11 +43,11 @@ counters, far-apart keys, populations), behaviour on the second use, and error p
 ; round 5 for arithmetic and conversions at the kernel boundary, scale beyond internal batches, ordering and
 fairness inside one iteration, and return values in uncommon outcomes; round 6 (ten properties) for changes that need
 scale or range to show: thresholds above what small experiments reach, exact numeric relations, orders of three or
-more objects; round 7 (the other ten properties) for two cooperating sites that each look right alone, the less used
+more objects; round 7 (the other ten properties, then five more) for two cooperating sites that each look right alone, the less used
 public entry points and options, and the window between two steps of one operation (`mkseedprompts.py` holds the prompts).  `C15-d3` is not a sub-agent's change: it is the reverse of the fix of defect D3, which the C15 machinery
 found by itself, kept as a regression seed.  A few changes were proposed independently more than once (C01-r2 = C03-r3,
 C04 = C04-r3, C06-r3 = C07-r3, C09-r3 = C09-r4 = C09-r5 = C15-r5, C03-r4 = C03-r5, C12-r3 = C12-r5, C14-r3 = C14-r5,
-C16-r4 = C16-r5); they are kept under each name because they were asked for under different properties.
+C16-r4 = C16-r5, C01 = C01-r7); they are kept under each name because they were asked for under different properties.
 
 %s
 
